@@ -2313,23 +2313,24 @@ class Fn(
         found_unselected = False
 
         for addr, value in x.items():
-            is_selected, subselection = selection.match(addr)
-            if is_selected:
-                if isinstance(value, dict) and subselection is not None:
-                    # Recursively filter nested choices
-                    selected_sub, unselected_sub = self.filter(value, subselection)
-                    if selected_sub is not None:
-                        selected[addr] = selected_sub
-                        found_selected = True
-                    if unselected_sub is not None:
-                        unselected[addr] = unselected_sub
-                        found_unselected = True
-                else:
-                    # Include the entire value in selected
-                    selected[addr] = value
+            # Follow the address like `regenerate` does: the remainder of the
+            # selection decides about everything below `addr` (a complement
+            # can select below an address it does not match itself), and a
+            # leaf is selected iff the remainder selects the empty address.
+            _, subselection = selection.match(addr)
+            if isinstance(value, dict):
+                # Recursively filter nested choices
+                selected_sub, unselected_sub = self.filter(value, subselection)
+                if selected_sub is not None:
+                    selected[addr] = selected_sub
                     found_selected = True
+                if unselected_sub is not None:
+                    unselected[addr] = unselected_sub
+                    found_unselected = True
+            elif () in subselection:
+                selected[addr] = value
+                found_selected = True
             else:
-                # Include the entire value in unselected
                 unselected[addr] = value
                 found_unselected = True
 
